@@ -98,7 +98,7 @@ class ExprLexStream(Stream):
         fixed = ["", "a", "a.b.c", "(1..3)", "('(..' .. x)", "(a)", "((1..2))", "[0]", "[ 'a' ]x", "['a'b']", "'x", "1.", "1..2", "-1.5.",
                  "12abc", "a-b?", "<>=!", "=>", "a||b", "a | f: 'x', y", "x² 1²", "(')..' .. 1)", "(\"..", "(1.\n.2)", "-", "- 1", "a\r\nb"]
         out = [{"base": 0, "src": s} for s in fixed]
-        for _ in range(ctx.scale(2500, 30000)):
+        for _ in range(ctx.scale(2000, 30000)):
             out.append({"base": rng.choice([0, 0, 3, 17, 250]), "src": gen_expr(rng)})
         return out
 
@@ -122,6 +122,9 @@ class ExprLexStream(Stream):
 
     def line(self, case):
         return ["exprlex", case["base"], case["src"]]
+
+    def canon_model(self, case, mobs):
+        return dp.unwrap(mobs)
 
     def oracle(self, case, obs):
         src, base = case["src"], case["base"]
@@ -215,6 +218,9 @@ class LiquidLinesStream(Stream):
     def line(self, case):
         return ["liquidlines", case["cs"], case["base"], case["src"]]
 
+    def canon_model(self, case, mobs):
+        return dp.unwrap(mobs)
+
     def oracle(self, case, obs):
         src, base = case["src"], case["base"]
         for kind, value, start in obs["tokens"]:
@@ -266,7 +272,7 @@ class ErrCtxStream(Stream):
     def cases(self, ctx):
         rng = ctx.rng_for("errctx")
         out = [{"text": t} for t in ["", "a", "\n", "a\n", "a\nb", "\r\n", "a\r\nb\r\n", "\n\n\n", "a\rb", "x\x0by", " "]]
-        for _ in range(ctx.scale(600, 6000)):
+        for _ in range(ctx.scale(400, 6000)):
             t = ""
             for _ in range(rng.range(0, 6)):
                 t += rng.choice(LINE_FRAGS) + (rng.choice(BREAKS) if rng.chance(75) else "")
@@ -293,6 +299,9 @@ class ErrCtxStream(Stream):
 
     def line(self, case):
         return ["errctx", case["text"], list(range(len(case["text"]) + 2))]
+
+    def canon_model(self, case, mobs):
+        return dp.unwrap(mobs)
 
     def compare_view(self, case, obs):
         return {"lines": obs["lines"], "ctx": obs["ctx"]}
@@ -372,7 +381,7 @@ def gen_pieces(rng, comments=False, liquid_comments=False):
             name, e = rng.choice([("if", g.condition()), ("endif", ""), ("else", ""), ("assign", "a = " + g.filtered()), ("echo", g.filtered()),
                                   ("for", "i in " + g.loop_expr()[0]), ("endfor", ""), ("#", "note here"), ("", ""), ("comment", ""), ("endcomment", ""),
                                   ("endcomment", "x"), ("comment", "y"), ("nosuch", "a b"), ("liquid", "echo 1\n  assign x = 2"), ("break", "")])
-            out.append(["tag", rng.chance(25), ws(), name, (ws1() if e else ws()), e, (ws() if e else ""), rng.chance(25)])
+            out.append(["tag", rng.chance(25), ws(), name, (ws1() if e else (ws() if name else "")), e, (ws() if e else ""), rng.chance(25)])
         elif k < 17:
             kind = rng.choice(["raw", "doc"])
             body = rng.choice(["", " {{ raw }} {% x %} ", "plain", "\n a \n", "{% raw %}", "{# c #}"])
@@ -407,7 +416,7 @@ class LexSpansStream(Stream):
     def cases(self, ctx):
         rng = ctx.rng_for("lexspans")
         out = []
-        for _ in range(ctx.scale(1500, 15000)):
+        for _ in range(ctx.scale(1000, 15000)):
             comments = rng.chance(40)
             ps = gen_pieces(rng, comments)
             if not ps:
@@ -430,6 +439,9 @@ class LexSpansStream(Stream):
 
     def line(self, case):
         return ["lex", case["d"], dp.for_driver(case["d"], case["pieces"])]
+
+    def canon_model(self, case, mobs):
+        return dp.unwrap(mobs)
 
     def oracle(self, case, obs):
         src = obs["source"]
@@ -605,7 +617,7 @@ class ErrorsStream(Stream):
 
     def cases(self, ctx):
         rng = ctx.rng_for("errors")
-        return [{"prog": gen_malformed(rng)} for _ in range(ctx.scale(900, 9000))]
+        return [{"prog": gen_malformed(rng)} for _ in range(ctx.scale(700, 9000))]
 
     def impl(self, case):
         import warnings
@@ -629,6 +641,8 @@ class ErrorsStream(Stream):
                     # only parse-time errors of partials: their message says so by class
                     if type(e).__name__ in ("LiquidSyntaxError", "TemplateInheritanceError") and e.token is not None and e.token.source != prog["source"]:
                         err = e
+                except Exception:  # a non-Liquid error escaping a render is C02's subject, not a parse error
+                    pass
         except LiquidError as e:
             err = e
         except RecursionError:
